@@ -171,6 +171,67 @@ fn main() {
             drop(repl);
             check(DROPS[0].load(SeqCst) == 1 && DROPS[2].load(SeqCst) == 1, "a value was not destroyed exactly once");
         }
+        "Arc::from_header_and_iter" => {
+            // honest iterator of `c` items whose next() panics at call number `k` (effect = "panic_at_<k>"):
+            // the half-built block may leak, but no destructor may run on an unwritten slot and no item twice
+            const MAGIC: u64 = 0x5eed_f00d_cafe_d00d;
+            static ITEM_DROPS: [AtomicUsize; 8] = [AtomicUsize::new(0), AtomicUsize::new(0), AtomicUsize::new(0), AtomicUsize::new(0),
+                                                   AtomicUsize::new(0), AtomicUsize::new(0), AtomicUsize::new(0), AtomicUsize::new(0)];
+            struct El {
+                magic: u64,
+                id: usize,
+            }
+            impl Drop for El {
+                fn drop(&mut self) {
+                    if self.magic != MAGIC || self.id >= 8 {
+                        fail("a destructor ran on a slot that was never written");
+                    }
+                    if ITEM_DROPS[self.id].fetch_add(1, SeqCst) != 0 {
+                        fail("an item was destroyed twice");
+                    }
+                }
+            }
+            struct It {
+                calls: usize,
+                n: usize,
+                panic_at: usize,
+            }
+            impl Iterator for It {
+                type Item = El;
+                fn next(&mut self) -> Option<El> {
+                    self.calls += 1;
+                    if self.calls == self.panic_at {
+                        panic!("user iterator panics");
+                    }
+                    if self.calls <= self.n {
+                        Some(El { magic: MAGIC, id: self.calls - 1 })
+                    } else {
+                        None
+                    }
+                }
+                fn size_hint(&self) -> (usize, Option<usize>) {
+                    let r = self.n - (self.calls.min(self.n));
+                    (r, Some(r))
+                }
+            }
+            impl ExactSizeIterator for It {}
+            let k: usize = effect.trim_start_matches("panic_at_").parse().unwrap();
+            let r = catch_unwind(AssertUnwindSafe(|| Arc::from_header_and_iter(Canary(0), It { calls: 0, n: c, panic_at: k })));
+            match r {
+                Ok(a) => {
+                    check(a.slice.len() == c, "wrong length");
+                    drop(a);
+                    for i in 0..c {
+                        check(ITEM_DROPS[i].load(SeqCst) == 1, "an item was not destroyed exactly once by the finished allocation");
+                    }
+                }
+                Err(_) => {
+                    for i in 0..c {
+                        check(ITEM_DROPS[i].load(SeqCst) <= 1, "an item was destroyed twice");
+                    }
+                }
+            }
+        }
         "Arc::into_thin" => {
             // a fat Arc whose recorded length (1) disagrees with its slice length (3): into_thin must refuse by
             // panicking and still release that Arc properly
